@@ -315,6 +315,13 @@ Definition parse_tokens (l : tl) : option kdoc := doc_loop (S (length l)) [] l.
 Definition parse_text (text : str) : option kdoc :=
   match tokenize text with Some l => parse_tokens l | None => None end.
 
+(** [_kv2_type_is_keyword]: would the parser read this element type as an attribute type keyword?  The same tests
+    [_parse_kv2_element] makes on the (casefolded) token after an attribute name. *)
+Definition type_is_keyword (t : str) : bool :=
+  let typ := fold t in
+  str_eqb typ s_elementid ||
+  mem_str (if ends_with typ s_array then firstn (length typ - 6) typ else typ) vtnames.
+
 (** ** Conditions *)
 (** on the tokenizer tables and options *)
 Definition is_none {A} (x : option A) : bool := match x with None => true | Some _ => false end.
